@@ -1026,7 +1026,8 @@ func (s *v4Server) handleRequest(req, resp *dhcpv4.DHCPv4) (lease *dhcpsvc.Lease
 
 // handleDecline is the handler for the DHCP Decline request.
 func (s *v4Server) handleDecline(req, resp *dhcpv4.DHCPv4) (err error) {
-	s.conf.notify(LeaseChangedDBStore)
+	// Store the leases once they have been changed and the lock is released.
+	defer s.conf.notify(LeaseChangedDBStore)
 
 	s.leasesLock.Lock()
 	defer s.leasesLock.Unlock()
@@ -1061,13 +1062,18 @@ func (s *v4Server) handleDecline(req, resp *dhcpv4.DHCPv4) (err error) {
 		return nil
 	}
 
-	newLease.Hostname = oldLease.Hostname
-	newLease.Expiry = time.Now().Add(s.conf.leaseTime)
-
-	err = s.addLease(newLease)
-	if err != nil {
-		return fmt.Errorf("adding new lease for %s: %w", mac, err)
+	// The new lease is in the table already, see reserveLease.  Don't add it
+	// for the second time, just set the expiration time and the hostname.
+	//
+	// A hostname generated from the declined address isn't carried over to the
+	// new one, since it'd clash with the name of the next lease for the
+	// declined address.
+	hostname := oldLease.Hostname
+	if hostname == aghnet.GenerateHostname(oldLease.IP) {
+		hostname = ""
 	}
+
+	s.commitLease(newLease, hostname)
 
 	log.Info("dhcpv4: changed IP from %s to %s for %s", reqIP, newLease.IP, mac)
 
